@@ -107,6 +107,22 @@ pub fn exec(kind: &str, script: &str, sink: &str) -> String {
         "t" => drive(StrictRioTripleSource(Fake(steps)), calls, sink_fail),
         "q" => drive(StrictRioQuadSource(FakeQ(steps)), calls, sink_fail),
         "g" => drive(GeneralizedRioSource(FakeG(steps)), calls, sink_fail),
+        // jsonld/src/parser/source.rs: either the collected quads (one per call) or a one-shot error
+        "j" => {
+            use sophia_jsonld::{JsonLdError, JsonLdQuadSource, RdfTerm};
+            let Some((n, fails)) = steps.front().copied() else { return "bad-op".into() };
+            if steps.len() != 1 {
+                return "bad-op".into();
+            }
+            let src = if fails {
+                JsonLdQuadSource::Err(Some(JsonLdError::ExpandError("scripted expansion error".into())))
+            } else {
+                let t = || RdfTerm::from(sophia_iri::Iri::new_unchecked(std::sync::Arc::<str>::from("x:t")));
+                let quads: Vec<sophia_api::quad::Spog<RdfTerm>> = (0..n).map(|_| ([t(), t(), t()], None)).collect();
+                JsonLdQuadSource::Quads(quads.into_iter())
+            };
+            drive(src, if fails { 3 } else { n + 2 }, sink_fail)
+        }
         _ => return "bad-op".into(),
     };
     format!("outs={}", outs)
